@@ -7,6 +7,9 @@ EAC = [195, 169]  # e-acute
 UUM = [195, 188]  # u-umlaut
 LF = [10]
 SYMS = [A, SP, TAB, CR, C1, DQ, SQ, BS, NUL, EAC, UUM]
+# non-ASCII characters of 2, 3 and 4 bytes, among them code points whose LOW BYTE equals a byte that is special to either side
+# (U+0122 -> 0x22 ", U+0127 -> 0x27 ', U+015C -> 0x5C \, U+0120 -> 0x20 blank, U+010A -> 0x0A LF, U+0100 -> NUL, U+2122, U+5927, U+4E0A, U+1F3B5)
+COLLIDERS = [list(ch.encode()) for ch in "\u0122\u0127\u015c\u0120\u010a\u0100\u0109\u2122\u5927\u4e0a\u2022\U0001f3b5\u00a0\u2028"]
 STR_TYPES = ["str", "string", "cow", "cowb"]
 
 
@@ -23,29 +26,35 @@ def c06_cases(quick, seed):
     def add(name, args):
         cases.append({"id": len(cases), "kind": "cmd", "name": list(name), "args": [{"ty": STR_TYPES[(len(cases) + k) % 4], "v": a} for k, a in enumerate(args)]})
 
-    for s in strings(3 if quick else 4):
+    for s in strings(4 if quick else 5):
         add(b"cmd", [s])
-    two = list(strings(1 if quick else 2))
+    two = list(strings(2 if quick else 2))
     for a in two:
         for b in two:
             add(b"x", [a, b])
     one = list(strings(1))
-    if not quick:
+    if True:
         for a in one:
             for b in one:
                 for c in one:
                     add(b"abc", [a, b, c])
+    # non-ASCII characters with colliding low bytes: alone, doubled, next to a blank / a plain letter, in pairs of arguments
+    for c in COLLIDERS:
+        for arg in (c, c + c, [97] + c, c + [97], c + [32], [32] + c, c + [34], [9] + c + [97]):
+            add(b"cmd", [arg])
+        add(b"x", [c, [97]])
+        add(b"x", [[97, 32, 98], c])
     # accepted names of length <= 3 over {a, Z, _} (and digits, which the builder may or may not take)
     for n in range(1, 4):
         for t in itertools.product([97, 90, 95, 48], repeat=n):
             add(bytes(t), [[97]])
     # random: long arguments, up to 15 arguments
-    for _ in range(400 if quick else 8000):
+    for _ in range(1500 if quick else 30000):
         nargs = rng.choice([1, 1, 2, 3, 5, 15])
         args = []
         for _ in range(nargs):
             ln = rng.choice([0, 1, 2, 5, 12, 40])
-            args.append([b for _ in range(ln) for b in rng.choice(SYMS + [A, A, A, [rng.randrange(33, 127)]])])
+            args.append([b for _ in range(ln) for b in rng.choice(SYMS + COLLIDERS[:6] + [A, A, A, [rng.randrange(33, 127)], list(chr(rng.choice([rng.randrange(0x80, 0x800), rng.randrange(0x800, 0xD800), rng.randrange(0x10000, 0x10FFFF)])).encode())])])
         add(rng.choice([b"cmd", b"find", b"sticker", b"a_b"]), args)
     return cases
 
@@ -64,12 +73,17 @@ def c07_cases(quick, seed):
     def add(name, args):
         cases.append({"id": len(cases), "kind": "cmd", "name": list(name), "args": args})
 
-    for n in range(0, 3 if quick else 4):
+    for n in range(0, 4 if quick else 5):
         for t in itertools.product(NAME_SYMS, repeat=n):
             add([b for s in t for b in s], [{"ty": "str", "v": [97]}])
     for w in WHOLE:
         add(w, [{"ty": "str", "v": [97]}])
         add(w, [])
+    for c in COLLIDERS:
+        add([97] + c, [{"ty": "str", "v": [97]}])
+        add(c, [])
+        for ty in ("str", "string", "cow", "raw"):
+            add(b"cmd", [{"ty": ty, "v": c}, {"ty": ty, "v": [97] + c + [98]}])
 
     def arg(rng_choice=None):
         ty = rng.choice(RENDERERS) if rng_choice is None else rng_choice
@@ -79,9 +93,9 @@ def c07_cases(quick, seed):
 
     # all sequences of <= 2 (quick) / 3 (thorough) args over pool x string-ish renderers
     pool = [{"ty": ty, "v": v} for ty in ("str", "raw") for v in ARG_POOL]
-    for n in range(1, 3 if quick else 4):
+    for n in range(1, 4):
         for t in itertools.product(pool, repeat=n):
-            if n == 3 and rng.random() > 0.15:
+            if n == 3 and rng.random() > (0.15 if quick else 1.0):
                 continue
             add(b"cmd", list(t))
     for _ in range(500 if quick else 10000):
@@ -110,7 +124,10 @@ def list_cases(quick, seed):
 
 
 # ---------------------------------------------------------------- filters (C11)
-TAGS = [b"Artist", b"Album", b"any", b"MUSICBRAINZ_ALBUMID", b"file", b"albumartist", b"x-custom"]
+KNOWN_TAGS = [b"Artist", b"ArtistSort", b"Album", b"AlbumSort", b"AlbumArtist", b"AlbumArtistSort", b"Title", b"Track", b"Name", b"Genre", b"Date", b"OriginalDate",
+              b"Composer", b"ComposerSort", b"Performer", b"Conductor", b"Work", b"Ensemble", b"Movement", b"MovementNumber", b"Location", b"Grouping", b"Comment", b"Disc", b"Label",
+              b"MUSICBRAINZ_ARTISTID", b"MUSICBRAINZ_ALBUMID", b"MUSICBRAINZ_ALBUMARTISTID", b"MUSICBRAINZ_TRACKID", b"MUSICBRAINZ_RELEASETRACKID", b"MUSICBRAINZ_WORKID"]
+TAGS = [b"Artist", b"Album", b"any", b"MUSICBRAINZ_ALBUMID", b"file", b"albumartist", b"x-custom"] + KNOWN_TAGS
 OPS = [b"==", b"!=", b"contains", b"=~", b"!~"]
 FVAL_SYMS = [[97], [32], [34], [39], [92], [40], [41], [195, 169]]
 FWORDS = [list(b"AND"), [], list(b"(a == \"b\")"), list(b" AND "), list(b"a) AND (b"), list(b"!("), list(b"\\\""), list(b"it's"), list(b"x\\y")]
@@ -121,11 +138,14 @@ def fvalues(maxlen):
         yield s
     for w in FWORDS:
         yield w
+    for c in COLLIDERS:
+        yield c
+        yield [97] + c + [32, 98]
 
 
 def leaf(rng, v, i=0):
     k = i % 8
-    tag = list(TAGS[i % len(TAGS)])
+    tag = list(TAGS[(i // 8 + i) % len(TAGS)])
     if k == 5:
         return {"k": "tag", "ctor": "exists", "tag": tag, "op": list(b"!="), "v": []}
     if k == 6:
@@ -153,13 +173,13 @@ def c11_cases(quick, seed):
     def add(tree):
         cases.append({"id": len(cases), "cmd": cmds[len(cases) % 4], "tree": tree})
 
-    vals = list(fvalues(2 if quick else 3))
+    vals = list(fvalues(3 if quick else 4))
     # every value in every leaf kind / operator
     for i, v in enumerate(vals):
         for k in range(8 if not quick else 2):
             add(leaf(rng, v, i * 8 + k if not quick else i + 5 * k))
-    # every operator x constructor x tag with a plain value
-    for i in range(40):
+    # every operator x constructor x tag (all documented tag names) with a plain value
+    for i in range(8 * len(TAGS)):
         add(leaf(rng, [97, 32, 98], i))
     small = list(fvalues(1))
     # structure: NOT, AND of 2..3, nested, with all small values
@@ -173,6 +193,6 @@ def c11_cases(quick, seed):
         add({"k": "and", "es": [{"k": "and", "es": [l1, l2]}, {"k": "and", "es": [l3, l1]}]})
         add({"k": "not", "e": {"k": "and", "es": [l1, {"k": "not", "e": l2}]}})
         add({"k": "and", "es": [{"k": "not", "e": {"k": "and", "es": [l1, l2]}}, l3]})
-    for _ in range(300 if quick else 6000):
+    for _ in range(1500 if quick else 30000):
         add(rand_tree(rng, vals, 3))
     return cases
